@@ -124,7 +124,7 @@ def collect(ctx, real_build, sdl, doc_json, canon):
                 if canon(sdl.expected_dump(sdl.declared(items))) != canon(real[1]):
                     ctx.stat("in-progress:differs-from-declared")
             except Exception:   # noqa: declared content not computable (invalid over the merged definitions)
-                ctx.stat("in-progress:accepted-without-declared-content")
+                ctx.stat("in-progress:declared-content-not-computable")
         cases.append((label, text, items, {}, [], real))
     return cases
 
